@@ -8,7 +8,9 @@ BASELINE = ("cd /repo && /venv/bin/python -m pytest -ra -q -p no:cacheprovider -
             "--continue-on-collection-errors")
 
 TRUST = ("python's ast parser; the rule tables in /verif/lo_static (torch API classification, per-symbol exception "
-         "tables with a reason each); the assumptions listed in the evidence file")
+         "tables with a reason each); the source-level normalisations of lo_static/normalize.py and lo_static/inline.py "
+         "(table dispatch -> if-chain, reflective method names -> specialised copies, same-module helpers inlined), which "
+         "assume that private names are only used inside the package; the assumptions listed in the evidence file")
 
 # id -> (built?, technique, level text, level_note, design_ref)
 CHECKS = {
@@ -99,7 +101,11 @@ CHECKS = {
             "KroneckerProductTriangular constructors; ~40 decided sites) receives upper= equal to the orientation tag "
             "of the factor it is given, under every assignment of upper/self.upper - a mismatch makes the kernel read "
             "the wrong triangle; (T) on the iterative route linear_cg measures convergence on the true residual, leaves "
-            "early only under the tolerance test and warns on every other path (the C08 stopping rules re-used). NOT "
+            "early only under the tolerance test and warns on every other path (the C08 stopping rules re-used); (S) a "
+            "solve-family definition that takes a specification-bearing parameter (upper, left_tensor ...) reads or forwards "
+            "it; (D) a solve-family definition does not decompose self through a decomposition that, as resolved on that "
+            "class, picks its algorithm by a size threshold (diagonalization / root_decomposition without method=): the "
+            "'direct' route would silently become a truncated Lanczos approximation above max_cholesky_size. NOT "
             "decided: residual accuracy of the direct routes (Woodbury / Kronecker algebra), which algorithm the size "
             "thresholds select.",
             TRUST + "; orientation tag rules and class invariants of lo_static/orient.py.", "DESIGN.md section 3, C04"),
@@ -118,15 +124,17 @@ CHECKS = {
             "Krylov compressions (numerical).",
             TRUST + "; orientation tag rules of lo_static/orient.py; reviewed exception tables.", "DESIGN.md section 3, C06"),
     "C16": (True,
-            "typestate / must-pass-through / dominance queries on the statement CFG of utils/cholesky.py, backward "
+            "typestate over acyclic CFG paths with branch conditions decomposed into literals, must-pass-through / dominance queries on the statement CFG of utils/cholesky.py, backward "
             "dependence closure, ownership analysis for the input",
             "Partial, structural - the control skeleton of psd_safe_cholesky for all inputs, batch shapes and dtypes: "
-            "(W) A is never written; (I) a factor escapes only on the all-zero branch of a test of ITS OWN info codes "
-            "(documented trace_mode escape excepted); (F) exhausting the tries cannot reach a normal return and raises "
+            "(W) A is never written; (I) on every acyclic path to a return of a factor, after the LAST cholesky_ex binding on that path some "
+            "test guarantees - whichever disjunct made it take that branch - that the info codes are all zero (or, for "
+            "the first factorization, the documented trace_mode escape); (F) exhausting the tries cannot reach a normal return and raises "
             "NotPSDError, the NaN screen dominates the retries, every perturbation is followed by a NumericalWarning; "
             "(D) the addend depends on info (per batch member) and is the difference new - previous jitter, defaults "
             "come from settings.cholesky_jitter(A.dtype) / cholesky_max_tries; (U) upper transposes exactly on "
-            "request. NOT decided: that the factor is numerically the Cholesky factor of the perturbed matrix.",
+            "request; (T) the retry loop makes exactly max_tries perturbed attempts and the k-th attempt adds jitter*10^k "
+            "(linear integer arithmetic on the range() bounds and on the exponent). NOT decided: that the factor is numerically the Cholesky factor of the perturbed matrix.",
             TRUST + "; cholesky_ex info semantics.", "DESIGN.md section 3, C16"),
     "C12": (True,
             "effect analysis of history channels (attribute stores outside __init__, memo-dictionary writes) with "
@@ -202,7 +210,10 @@ CHECKS = {
             "degree 0/1/2/unknown per value, bilinear ops add degrees, concatenations paired segment-wise) finds no "
             "product whose two operands both depend on the same upstream gradient: g*g == g and 1*x == x for the "
             "all-ones gradient of .sum().backward(), so the tests cannot see it; (P9) the contributions of two upstream "
-            "gradients are accumulated independently, never one only on the branch where the other is None. PyTorch checks tuple length only on executed paths and the tests set "
+            "gradients are accumulated independently, never one only on the branch where the other is None; (B) every hand-written "
+            "_bilinear_derivative is BILINEAR in (left_vecs, right_vecs): each non-zero returned entry value-depends on both "
+            "and no product has both operands depending on the same one (the copy-and-paste slip left-for-right, invisible "
+            "when tests pass left == right). PyTorch checks tuple length only on executed paths and the tests set "
             "requires_grad on everything, so misaligned indices / shifted prefixes on requires_grad subsets are "
             "invisible to them. NOT decided: gradient VALUES, swaps among same-kind tensor slots.",
             TRUST, "DESIGN.md section 3, C07"),
@@ -214,8 +225,11 @@ CHECKS = {
             "columns are frozen by masking the step length by has_converged in BOTH sibling update paths (Z); the "
             "residual norm that decides convergence is masked by rhs_is_zero inside the loop and the returned iterate is "
             "multiplied back by rhs_norm after it (S); max_tridiag_iter > max_iter and a NaN first residual raise before "
-            "the iteration (E); the early exit and tolerance_reached are controlled by tolerance and residual norm (X); "
-            "the NumericalWarning test lies on every path from the loop to a return (W); every torch.div by an iteration "
+            "the iteration (E); the early exit and tolerance_reached are controlled (true control dependence, not mere dominance) by tolerance and "
+            "residual norm, and - when tridiagonal matrices can be requested - depend on n_tridiag through reaching "
+            "definitions (X); the NumericalWarning test lies on every path from the loop to a return and every warning-free "
+            "path to a return is justified by the tolerance-reached flag or a zero iteration budget, path conditions being "
+            "decomposed into literals and flags looked through (W); every torch.div by an iteration "
             "quantity is dominated by the lt(den, eps) -> masked_fill_(mask, 1) idiom (D); by flow-sensitive value "
             "dependence the norm that decides convergence is a function of the residual itself, not of the "
             "preconditioned inner product, the zero-column threshold does not depend on the right-hand side, and the "
